@@ -90,6 +90,10 @@ CORPUS = {
     # launched: `_run_recurrent_subgraph` stopped silently, the destination kept its Recurrent result and the one-of
     # waited forever (thorough C02 run, seed 21; fix ba2b010)
     'P22_rec_in_candidate_stops_on_late_error': json.loads(r'''{"input": 0, "input_kwargs": {"x": "w"}, "nodes": [{"attempts": null, "body": {"kind": "prov"}, "delay": null, "exceptions": null, "fails": [], "has_additional": false, "is_rec": false, "marks": [], "mode": "coro", "name": "N0", "plain": ["x"], "recur_k": 0, "use_default": false}, {"attempts": null, "body": {"kind": "prov"}, "delay": null, "exceptions": null, "fails": [], "has_additional": false, "is_rec": false, "marks": [["a", {"kind": "input", "src": 0}]], "mode": "coro", "name": "N1", "plain": [], "recur_k": 0, "use_default": false}, {"attempts": null, "body": {"kind": "prov"}, "delay": null, "exceptions": null, "fails": [[0, 1, "E1"], [0, 2, "E1"]], "has_additional": true, "is_rec": false, "marks": [["a", {"kind": "input", "src": 0}]], "mode": "coro", "name": "N2", "plain": [], "recur_k": 0, "use_default": false}, {"attempts": null, "body": {"kind": "prov"}, "delay": null, "exceptions": null, "fails": [], "has_additional": false, "is_rec": false, "marks": [["a", {"cands": [1, 2], "kind": "oneof"}]], "mode": "coro", "name": "N3", "plain": [], "recur_k": 0, "use_default": false}, {"attempts": null, "body": {"kind": "const", "v": null}, "delay": null, "exceptions": null, "fails": [], "has_additional": false, "is_rec": false, "marks": [["a", {"cands": [3], "kind": "oneof"}]], "mode": "coro", "name": "N4", "plain": [], "recur_k": 0, "use_default": false}, {"attempts": null, "body": {"kind": "prov"}, "delay": null, "exceptions": null, "fails": [], "has_additional": false, "is_rec": true, "marks": [["a", {"cands": [4], "kind": "oneof"}]], "mode": "coro", "name": "N5", "plain": [], "recur_k": 2, "use_default": true}, {"attempts": null, "body": {"kind": "prov"}, "delay": null, "exceptions": null, "fails": [[0, 1, "E2"], [0, 2, "E2"]], "has_additional": false, "is_rec": false, "marks": [["a", {"dest": 5, "kind": "rec", "max": 1, "start": 2}]], "mode": "coro", "name": "N6", "plain": [], "recur_k": 0, "use_default": true}, {"attempts": null, "body": {"kind": "prov"}, "delay": null, "exceptions": null, "fails": [[0, 1, "E1"], [0, 2, "E1"]], "has_additional": false, "is_rec": false, "marks": [["a", {"kind": "input", "src": 0}]], "mode": "coro", "name": "N7", "plain": [], "recur_k": 0, "use_default": false}, {"attempts": null, "body": {"kind": "const", "v": null}, "delay": null, "exceptions": null, "fails": [[0, 1, "E2"]], "has_additional": false, "is_rec": false, "marks": [["a", {"cands": [7, 6], "kind": "oneof"}]], "mode": "coro", "name": "N8", "plain": [], "recur_k": 0, "use_default": true}], "output": 8}'''),
+    'P23_switch_in_rec_stale_decision': json.loads(r'''{"input": 0, "input_kwargs": {"x": "v"}, "nodes": [{"attempts": null, "body": {"kind": "prov"}, "delay": null, "exceptions": null, "fails": [], "has_additional": false, "is_rec": false, "marks": [], "mode": "coro", "name": "N0", "plain": ["x"], "recur_k": 0, "use_default": false}, {"attempts": null, "body": {"kind": "prov"}, "delay": null, "exceptions": null, "fails": [], "has_additional": true, "is_rec": false, "marks": [], "mode": "coro", "name": "N1", "plain": [], "recur_k": 0, "use_default": false}, {"attempts": null, "body": {"kind": "labels", "v": ["l0", "l1"]}, "delay": null, "exceptions": null, "fails": [], "has_additional": false, "is_rec": false, "marks": [["a", {"kind": "input", "src": 1}]], "mode": "coro", "name": "N2", "plain": [], "recur_k": 0, "use_default": false}, {"attempts": null, "body": {"kind": "prov"}, "delay": null, "exceptions": null, "fails": [], "has_additional": false, "is_rec": false, "marks": [], "mode": "coro", "name": "N3", "plain": [], "recur_k": 0, "use_default": false}, {"attempts": null, "body": {"kind": "prov"}, "delay": null, "exceptions": null, "fails": [], "has_additional": false, "is_rec": false, "marks": [], "mode": "coro", "name": "N4", "plain": [], "recur_k": 0, "use_default": false}, {"attempts": null, "body": {"kind": "prov"}, "delay": null, "exceptions": null, "fails": [], "has_additional": false, "is_rec": false, "marks": [["a", {"cases": [["l0", 3], ["l1", 4]], "decider": 2, "kind": "switch", "name": "sw0"}]], "mode": "coro", "name": "N5", "plain": [], "recur_k": 0, "use_default": false}, {"attempts": null, "body": {"kind": "prov"}, "delay": null, "exceptions": null, "fails": [], "has_additional": false, "is_rec": true, "marks": [["a", {"kind": "input", "src": 5}]], "mode": "coro", "name": "N6", "plain": [], "recur_k": 1, "use_default": false}, {"attempts": null, "body": {"kind": "prov"}, "delay": null, "exceptions": null, "fails": [], "has_additional": false, "is_rec": false, "marks": [["a", {"dest": 6, "kind": "rec", "max": 2, "start": 1}]], "mode": "coro", "name": "N7", "plain": [], "recur_k": 0, "use_default": false}], "output": 7}'''),
+    'P23b_switch_in_rec_new_case_fails': json.loads(r'''{"input": 0, "input_kwargs": {"x": "v"}, "nodes": [{"attempts": null, "body": {"kind": "prov"}, "delay": null, "exceptions": null, "fails": [], "has_additional": false, "is_rec": false, "marks": [], "mode": "coro", "name": "N0", "plain": ["x"], "recur_k": 0, "use_default": false}, {"attempts": null, "body": {"kind": "prov"}, "delay": null, "exceptions": null, "fails": [], "has_additional": true, "is_rec": false, "marks": [], "mode": "coro", "name": "N1", "plain": [], "recur_k": 0, "use_default": false}, {"attempts": null, "body": {"kind": "labels", "v": ["l0", "l1"]}, "delay": null, "exceptions": null, "fails": [], "has_additional": false, "is_rec": false, "marks": [["a", {"kind": "input", "src": 1}]], "mode": "coro", "name": "N2", "plain": [], "recur_k": 0, "use_default": false}, {"attempts": null, "body": {"kind": "prov"}, "delay": null, "exceptions": null, "fails": [], "has_additional": false, "is_rec": false, "marks": [], "mode": "coro", "name": "N3", "plain": [], "recur_k": 0, "use_default": false}, {"attempts": null, "body": {"kind": "prov"}, "delay": null, "exceptions": null, "fails": [[0, 1, "E0"]], "has_additional": false, "is_rec": false, "marks": [], "mode": "coro", "name": "N4", "plain": [], "recur_k": 0, "use_default": false}, {"attempts": null, "body": {"kind": "prov"}, "delay": null, "exceptions": null, "fails": [], "has_additional": false, "is_rec": false, "marks": [["a", {"cases": [["l0", 3], ["l1", 4]], "decider": 2, "kind": "switch", "name": "sw0"}]], "mode": "coro", "name": "N5", "plain": [], "recur_k": 0, "use_default": false}, {"attempts": null, "body": {"kind": "prov"}, "delay": null, "exceptions": null, "fails": [], "has_additional": false, "is_rec": true, "marks": [["a", {"kind": "input", "src": 5}]], "mode": "coro", "name": "N6", "plain": [], "recur_k": 1, "use_default": false}, {"attempts": null, "body": {"kind": "prov"}, "delay": null, "exceptions": null, "fails": [], "has_additional": false, "is_rec": false, "marks": [["a", {"dest": 6, "kind": "rec", "max": 2, "start": 1}]], "mode": "coro", "name": "N7", "plain": [], "recur_k": 0, "use_default": false}], "output": 7}'''),
+    'P24_oneof_in_rec_candidate_fails_on_restart': json.loads(r'''{"cb": {"ncomplete": {"0": 2, "1": 2, "3": 2}, "nstart": {"1": 1, "3": 2, "5": 1}, "pcomplete": 1, "pstart": 1, "save": {"3": 1, "4": 1}}, "input": 0, "input_kwargs": {"x": "w"}, "nodes": [{"attempts": null, "body": {"kind": "prov"}, "delay": null, "exceptions": null, "fails": [], "has_additional": false, "is_rec": false, "marks": [], "mode": "coro", "name": "N0", "plain": ["x"], "recur_k": 0, "use_default": false}, {"attempts": 1, "body": {"kind": "const", "v": ""}, "delay": null, "exceptions": ["E0", "E2"], "fails": [], "has_additional": false, "is_rec": false, "marks": [["a", {"kind": "input", "src": 0}]], "mode": "coro", "name": "N1", "plain": [], "recur_k": 0, "use_default": false}, {"attempts": null, "body": {"kind": "prov"}, "delay": null, "exceptions": null, "fail_hash": [2, 1, "E1"], "fails": [], "has_additional": true, "is_rec": false, "marks": [["a", {"kind": "input", "src": 0}], ["b", {"cands": [1], "kind": "oneof"}]], "mode": "coro", "name": "N2", "plain": [], "recur_k": 0, "use_default": false}, {"attempts": 1, "body": {"kind": "prov"}, "delay": null, "exceptions": ["E1"], "fails": [], "has_additional": false, "is_rec": false, "marks": [["a", {"kind": "input", "src": 0}]], "mode": "coro", "name": "N3", "plain": [], "recur_k": 0, "use_default": false}, {"attempts": 2, "body": {"kind": "prov"}, "delay": 0, "exceptions": ["E2"], "fails": [], "has_additional": false, "is_rec": false, "marks": [["a", {"cands": [2, 3], "kind": "oneof"}]], "mode": "coro", "name": "N4", "plain": [], "recur_k": 0, "use_default": false}, {"attempts": null, "body": {"kind": "prov"}, "delay": null, "exceptions": null, "fails": [], "has_additional": false, "is_rec": true, "marks": [["a", {"cands": [4], "kind": "oneof"}]], "mode": "coro", "name": "N5", "plain": [], "recur_k": 1, "use_default": true}, {"attempts": null, "body": {"kind": "prov"}, "delay": null, "exceptions": null, "fails": [], "has_additional": false, "is_rec": false, "marks": [["a", {"dest": 5, "kind": "rec", "max": 3, "start": 2}]], "mode": "coro", "name": "N6", "plain": [], "recur_k": 0, "use_default": false}], "output": 6}'''),
+    'P24b_oneof_in_rec_unneeded_candidate_runs': json.loads(r'''{"cb": {"ncomplete": {"1": 1, "6": 1}, "nstart": {"0": 1, "2": 1, "3": 1, "4": 1, "7": 1}, "pcomplete": 0, "pstart": 0, "save": {"0": 1, "1": 1, "4": 1}}, "input": 0, "input_kwargs": {"x": "w"}, "nodes": [{"attempts": null, "body": {"kind": "prov"}, "delay": null, "exceptions": null, "fails": [], "has_additional": false, "is_rec": false, "marks": [], "mode": "coro", "name": "N0", "plain": ["x"], "recur_k": 0, "use_default": false}, {"attempts": 3, "body": {"kind": "const", "v": null}, "delay": 1, "exceptions": ["E0", "E2"], "fails": [], "has_additional": false, "is_rec": false, "marks": [], "mode": "coro", "name": "N1", "plain": [], "recur_k": 0, "use_default": false}, {"attempts": null, "body": {"kind": "prov"}, "delay": null, "exceptions": ["E2"], "fails": [], "has_additional": false, "is_rec": false, "marks": [["a", {"kind": "input", "src": 1}]], "mode": "coro", "name": "N2", "plain": [], "recur_k": 0, "use_default": false}, {"attempts": null, "body": {"kind": "prov"}, "delay": null, "exceptions": null, "fails": [], "has_additional": true, "is_rec": false, "marks": [], "mode": "coro", "name": "N3", "plain": [], "recur_k": 0, "use_default": false}, {"attempts": null, "body": {"kind": "prov"}, "delay": null, "exceptions": null, "fails": [], "has_additional": false, "is_rec": false, "marks": [["a", {"cands": [3], "kind": "oneof"}]], "mode": "coro", "name": "N4", "plain": [], "recur_k": 0, "use_default": false}, {"attempts": null, "body": {"kind": "const", "v": 0}, "delay": null, "exceptions": null, "fails": [], "has_additional": false, "is_rec": false, "marks": [], "mode": "coro", "name": "N5", "plain": [], "recur_k": 0, "use_default": false}, {"attempts": null, "body": {"kind": "prov"}, "delay": null, "exceptions": null, "fails": [], "has_additional": false, "is_rec": true, "marks": [["a", {"kind": "input", "src": 5}], ["b", {"cands": [2, 4], "kind": "oneof"}]], "mode": "coro", "name": "N6", "plain": [], "recur_k": 1, "use_default": false}, {"attempts": null, "body": {"kind": "prov"}, "delay": null, "exceptions": null, "fails": [], "has_additional": false, "is_rec": false, "marks": [["a", {"dest": 6, "kind": "rec", "max": 2, "start": 3}]], "mode": "coro", "name": "N7", "plain": [], "recur_k": 0, "use_default": true}], "output": 7}'''),
 }
 
 
@@ -266,6 +270,48 @@ MOTIFS['M29b_node_as_case_and_as_candidate_by_input'] = spec([
     node(0), node(1, [('a', inp(0))], body={'kind': 'labelhash', 'v': ['l0', 'l1']}),
     node(2, [('a', inp(0))], fails=FAIL), node(3), node(4, [('a', one(2, 3))]),
     node(5, [('a', sw(1, [('l0', 2), ('l1', 4)]))])])
+
+
+# switches and one-ofs inside a recurrent subgraph (repo fix: a restart forgets the decisions and runs the subgraph lazily)
+_LABS = {'kind': 'labels', 'v': ['l0', 'l1']}
+
+
+def _sw_in_rec(inside, **case_kw):
+    dep = [('a', inp(1))] if inside else []
+    return spec([
+        node(0), node(1, [('a', inp(0))], has_additional=True), node(2, [('a', inp(1))], body=_LABS),
+        node(3, dep, **case_kw.get('c0', {})), node(4, dep, **case_kw.get('c1', {})),
+        node(5, [('a', sw(2, [('l0', 3), ('l1', 4)]))]), node(6, [('a', inp(5))], is_rec=True, recur_k=1),
+        node(7, [('a', rec(1, 6, 2))])])
+
+
+def _one_in_rec(**kw):
+    return spec([
+        node(0), node(1, [('a', inp(0))], has_additional=True), node(2, [('a', inp(1))], **kw.get('c0', {})),
+        node(3, [('a', inp(1))], **kw.get('c1', {})), node(4, [('a', one(2, 3))]),
+        node(5, [('a', inp(4))], is_rec=True, recur_k=1), node(6, [('a', rec(1, 5, 2))])])
+
+
+MOTIFS['M30_switch_in_rec_decision_changes_cases_outside'] = _sw_in_rec(False)
+MOTIFS['M30b_switch_in_rec_new_case_fails'] = _sw_in_rec(False, c1={'fails': FAIL})
+MOTIFS['M31_switch_in_rec_cases_inside'] = _sw_in_rec(True)
+MOTIFS['M31b_switch_in_rec_old_case_would_fail_on_restart'] = _sw_in_rec(True, c0={'fails': [[1, 1, 'E0']]})
+MOTIFS['M31c_switch_in_rec_new_case_fails_on_restart'] = _sw_in_rec(True, c1={'fails': [[0, 1, 'E0']]})
+MOTIFS['M32_oneof_in_rec'] = _one_in_rec()
+MOTIFS['M32b_oneof_in_rec_first_fails_on_restart'] = _one_in_rec(c0={'fails': [[1, 1, 'E0']]})
+MOTIFS['M32c_oneof_in_rec_first_fails_before_restart'] = _one_in_rec(c0={'fails': FAIL})
+MOTIFS['M32d_oneof_in_rec_fallback_would_fail_on_restart'] = _one_in_rec(c1={'fails': [[0, 1, 'E1'], [1, 1, 'E1']]})
+MOTIFS['M32e_oneof_in_rec_all_fail_on_restart'] = _one_in_rec(c0={'fails': [[1, 1, 'E0']]}, c1={'fails': [[0, 1, 'E1']]})
+# the only way from the start node to the destination leads through a case edge / a candidate edge
+MOTIFS['M33_rec_scope_through_case_edge'] = spec([
+    node(0), node(1, [('a', inp(0))], has_additional=True), node(2, body=LAB), node(3, [('a', inp(1))]),
+    node(4, [('a', sw(2, [('l0', 3)]))]), node(5, [('a', inp(4))], is_rec=True, recur_k=1), node(6, [('a', rec(1, 5, 2))])])
+MOTIFS['M33b_rec_scope_through_candidate_edge'] = spec([
+    node(0), node(1, [('a', inp(0))], has_additional=True), node(2, [('a', inp(1))]), node(3),
+    node(4, [('a', one(2, 3))]), node(5, [('a', inp(4))], is_rec=True, recur_k=1), node(6, [('a', rec(1, 5, 2))])])
+MOTIFS['M33c_rec_scope_through_candidate_edge_first_fails_on_restart'] = spec([
+    node(0), node(1, [('a', inp(0))], has_additional=True), node(2, [('a', inp(1))], fails=[[1, 1, 'E0']]), node(3),
+    node(4, [('a', one(2, 3))]), node(5, [('a', inp(4))], is_rec=True, recur_k=1), node(6, [('a', rec(1, 5, 2))])])
 
 
 def _with_cb(sp, cb):
